@@ -316,7 +316,17 @@ func c13Document(c *eng.Ctx) {
 				return
 			}
 			n++
-			arg, _, isM := marshalArg(call.Call.Args[0])
+			data := call.Call.Args[0]
+			arg, _, isM := marshalArg(data)
+			for depth := 0; !isM && depth < 3; depth++ {
+				// the document may be encoded by a helper of the same store
+				inner, hc := eng.ThroughHelper(data, func(g *ssa.Function) bool { return eng.IsHelper(f, g) })
+				if inner == nil || len(hc.Call.Args) == 0 || len(f.Params) == 0 || eng.Origin(hc.Call.Args[0]) != ssa.Value(f.Params[0]) {
+					break
+				}
+				data = inner
+				arg, _, isM = marshalArg(data)
+			}
 			okk := false
 			detail := "data = " + eng.ValStr(call.Call.Args[0])
 			if isM {
@@ -705,7 +715,7 @@ func c13Validity(c *eng.Ctx) {
 	}
 	var loop *mapLoop
 	for _, l := range mapLoops(f) {
-		if n, isAct := activeMapOf(l.Range.X); isAct && n == "m" {
+		if isActiveSetValue(l.Range.X) {
 			ll := l
 			loop = &ll
 		}
